@@ -15,7 +15,7 @@ use crate::props::c14::make_cell;
 use crate::statejson::{line_shape, mol_shape, oshape_from_spec, Params, ShapeSpec};
 
 pub const TITLE: &str = "The hard-packing score is the true packing fraction, and never exceeds 1";
-pub const RULE: &str = "part shapes: regular n-gons 3..12, radial polygons (radii 0.2..1, n 3..12, any), circle, trimers over radius (0,1.5] x angle [0,180] x distance [0,2.5] including the CLI default, triple overlaps, containment and distance 0; oracle: area() against the shoelace area of the documented vertices / the vertical-decomposition area of the union of the documented discs (rel 1e-9). part cells: deserialised cells of all four families; area() = |A x B| (rel 1e-12). part states: one cell with a vector of sites (uniform and thin families of C01); for every state the harness's own tiling oracle finds overlap-free (worst gap > 1e-9) and the package scores: score = N_group * area_true / |A x B| (rel 1e-9) and 0 < score <= 1+1e-9, with N_group from the ITA table, the area from the harness's shape and the cell from the harness's lattice. Non-trivial = shape with >= 1 overlapping disc pair, or an oblique cell (angle != pi/2), or N >= 2; distinct by hash of the numbers. Classes report {no overlap, pair overlap, triple overlap, containment, distance 0} for disc shapes.";
+pub const RULE: &str = "part shapes: regular n-gons 3..12, radial polygons (radii 0.2..1, n 3..12, any), circle, trimers over radius (0,1.5] x angle [0,180] x distance [0,2.5] including the CLI default, triple overlaps, containment and distance 0; oracle: area() against the shoelace area of the documented vertices / the vertical-decomposition area of the union of the documented discs (rel 1e-9). part cells: deserialised cells of all four families; area() = |A x B| (rel 1e-12). part states: one cell with a vector of sites (uniform and thin families of C01); for every state the harness's own tiling oracle finds overlap-free (worst gap > 1e-9) and the package scores: score = N_group * area_true / |A x B| (rel 1e-9) and 0 < score <= 1+1e-9, with N_group from the ITA table, the area from the harness's shape and the cell from the harness's lattice. part histories: real optimiser runs (1..12 loops, step sizes 1e-3..1, kT 0..0.5) behind a logging probe; every score the optimiser saw must equal N*area/|AxB| of the parameters it was computed from (rel 1e-9) — this is where a cached term that goes stale while one state object is modified would show. part shape-replaced: a state is scored, its public shape field is replaced, and it is scored again against the new shape's packing fraction. Non-trivial = shape with >= 1 overlapping disc pair, or an oblique cell (angle != pi/2), or N >= 2; distinct by hash of the numbers. Classes report {no overlap, pair overlap, triple overlap, containment, distance 0} for disc shapes.";
 
 pub fn assumptions() -> Vec<&'static str> {
     vec![
@@ -238,6 +238,164 @@ fn state_oracle(c: &TilingCase, rec: &Rec, ctx: &Ctx) -> Result<(), String> {
     Ok(())
 }
 
+// ------------------------------------------------------------------------------------------------
+// along optimisation histories: every score the optimiser sees must be the packing fraction of the parameters
+// it was computed from (a cached area or cell term that goes stale while one state object is being modified
+// would show here and nowhere else)
+
+fn history_oracle(c: &crate::props::c01::HistoryCase, rec: &Rec, _: &Ctx) -> Result<(), String> {
+    use crate::probe::{Mode, Probe};
+    use packing::traits::State;
+    let spec = &c.start;
+    let os_doc = oshape_from_spec(&spec.shape);
+    let area_true = os_doc.area();
+    if !(area_true.is_finite() && area_true > 0.) {
+        return Ok(());
+    }
+    let n = geom::group(spec.group).ops.len() as f64;
+    let oblique = crate::gen::is_oblique(spec.group);
+    macro_rules! go {
+        ($init:expr) => {{
+            let init = $init;
+            let st = if c.from_initial { init } else { crate::statejson::with_params(&init, &spec.p)? };
+            if !st.score().map(|s| s.is_finite()).unwrap_or(false) {
+                rec.class("history/start-invalid-skipped");
+                return Ok(());
+            }
+            let probe = Probe::new(st, c.kt_start == 0.);
+            let model = probe.model.clone();
+            model.lock().unwrap().mode = Mode::Agnostic;
+            let mut b = packing::BuildOptimiser::default();
+            b.steps(c.steps).inner_steps(c.inner).kt_start(c.kt_start).kt_ratio(Some(c.kt_ratio.unwrap_or(0.1))).max_step_size(c.max_step).seed(c.seed).convergence(None);
+            let opt = b.build();
+            let _ = std::panic::catch_unwind(std::panic::AssertUnwindSafe(|| {
+                let _ = opt.optimise_state(probe);
+            }));
+            let m = model.lock().unwrap_or_else(|e| e.into_inner());
+            m.steps.iter().map(|s| (s.proposal.clone(), s.returned)).collect::<Vec<_>>()
+        }};
+    }
+    let wg = crate::statejson::wg(spec.group);
+    let calls: Vec<(Vec<f64>, Option<f64>)> = match &spec.shape {
+        ShapeSpec::Polygon { .. } | ShapeSpec::Radial { .. } => go!(packing::PackedState::from_group(line_shape(&spec.shape).ok_or("shape")?, &wg).map_err(|e| e.to_string())?),
+        _ => go!(packing::PackedState::from_group(mol_shape(&spec.shape).ok_or("shape")?, &wg).map_err(|e| e.to_string())?),
+    };
+    let mut judged = 0u64;
+    let mut small_angle_moves = 0u64;
+    let mut last_angle = f64::NAN;
+    for (params, ret) in calls.iter() {
+        let score = match ret {
+            Some(s) => *s,
+            None => continue,
+        };
+        let (length, ratio, angle) = if oblique && params.len() == 6 {
+            (params[0], params[1], params[2])
+        } else if !oblique && params.len() == 5 {
+            (params[0], params[1], PI / 2.)
+        } else {
+            rec.class("history/unexpected-basis-skipped");
+            return Ok(());
+        };
+        let cell_area = Lattice::from_params(length, ratio, angle).area();
+        let want = n * area_true / cell_area;
+        judged += 1;
+        if (angle - last_angle).abs() < 1e-3 && angle != last_angle {
+            small_angle_moves += 1;
+        }
+        last_angle = angle;
+        if !((score - want).abs() <= 1e-9 * want) {
+            return Err(format!(
+                "during an optimisation of {:?} in {} the state with cell length {}, ratio {}, angle {} was scored {} but N*area/|AxB| = {}*{}/{} = {} (relative error {:e})",
+                spec.shape,
+                geom::GROUP_NAMES[spec.group],
+                length,
+                ratio,
+                angle,
+                score,
+                n,
+                area_true,
+                cell_area,
+                want,
+                (score - want) / want
+            ));
+        }
+    }
+    rec.eval(judged);
+    let class = format!("history/{}{}", if oblique { "oblique" } else { "rectangular" }, if small_angle_moves > 0 { "/small-angle-moves" } else { "" });
+    rec.class(&class);
+    if judged >= 10 {
+        rec.nontrivial(crate::engine::hash_json(&serde_json::to_value(c).unwrap()));
+    }
+    if rec.wants_sample(&class) {
+        rec.sample(&class, || serde_json::to_value(c).unwrap());
+    }
+    Ok(())
+}
+
+// one state object whose public `shape` field is replaced between two evaluations
+#[derive(Clone, Debug, Serialize, Deserialize)]
+pub struct ReplaceCase {
+    pub group: usize,
+    pub first: ShapeSpec,
+    pub second: ShapeSpec,
+    pub scale: f64,
+}
+
+fn replace_strat(_: &Ctx) -> BoxedStrategy<ReplaceCase> {
+    prop_oneof![
+        (0usize..7, crate::gen::line_shape_spec(), crate::gen::line_shape_spec(), 1.0..3.0f64).prop_map(|(group, first, second, scale)| ReplaceCase { group, first, second, scale }),
+        (0usize..7, crate::gen::mol_shape_spec(), crate::gen::mol_shape_spec(), 1.0..3.0f64).prop_map(|(group, first, second, scale)| ReplaceCase { group, first, second, scale }),
+    ]
+    .boxed()
+}
+
+fn replace_oracle(c: &ReplaceCase, rec: &Rec, _: &Ctx) -> Result<(), String> {
+    use packing::traits::State;
+    let wg = crate::statejson::wg(c.group);
+    let n = geom::group(c.group).ops.len() as f64;
+    let os2 = oshape_from_spec(&c.second);
+    let area2 = os2.area();
+    if !(area2.is_finite() && area2 > 0.) {
+        return Ok(());
+    }
+    rec.eval(1);
+    macro_rules! go {
+        ($mk:expr) => {{
+            let s1 = $mk(&c.first).ok_or("shape")?;
+            let s2 = $mk(&c.second).ok_or("shape")?;
+            // a cell generous enough for either shape
+            let mut st = packing::PackedState::from_group(s1, &wg).map_err(|e| e.to_string())?;
+            let p0 = crate::statejson::params_of(&st).ok_or("params")?;
+            let big = crate::statejson::with_params(&packing::PackedState::from_group(s2.clone(), &wg).map_err(|e| e.to_string())?, &p0)?;
+            let _ = big;
+            st = crate::statejson::with_params(&st, &Params { length: p0.length * c.scale * 2.5, ..p0.clone() })?;
+            let _first_score = st.score();
+            st.shape = s2;
+            (st.score(), crate::statejson::params_of(&st).ok_or("params")?)
+        }};
+    }
+    let (score, p) = match &c.first {
+        ShapeSpec::Polygon { .. } | ShapeSpec::Radial { .. } => go!(line_shape),
+        _ => go!(mol_shape),
+    };
+    let cell_area = Lattice::from_params(p.length, p.ratio, p.angle).area();
+    let want = n * area2 / cell_area;
+    match score {
+        Some(s) => {
+            if !((s - want).abs() <= 1e-9 * want) {
+                return Err(format!("a state scored with shape {:?} and then given shape {:?} scores {} but N*area/|AxB| of the new shape is {}", c.first, c.second, s, want));
+            }
+            rec.class("replace/scored");
+            rec.nontrivial(crate::engine::hash_json(&serde_json::to_value(c).unwrap()));
+        }
+        None => rec.class("replace/rejected"),
+    }
+    if rec.wants_sample("replace") {
+        rec.sample("replace", || serde_json::to_value(c).unwrap());
+    }
+    Ok(())
+}
+
 fn single_site(c: &TilingCase, fails: &dyn Fn(&TilingCase) -> bool) -> TilingCase {
     for s in c.sites.iter() {
         let one = TilingCase { sites: vec![*s], ..c.clone() };
@@ -253,5 +411,7 @@ pub fn parts() -> Vec<PartDef> {
         part("shapes", 3_000_000, 60_000_000, shape_strat, shape_oracle),
         part("cells", 2_000_000, 40_000_000, cell_strat, cell_oracle),
         part_min("states", 200_000, 4_000_000, |_| crate::props::c01::state_family_strat(), state_oracle, single_site),
+        part("histories", 1_500, 45_000, |_| crate::props::c01::history_strat(), history_oracle),
+        part("shape-replaced", 60_000, 1_500_000, replace_strat, replace_oracle),
     ]
 }
